@@ -29,7 +29,7 @@ func C02(c *ev.Ctx) {
 	c.Cov.DistinctNontrivial = nt
 	c.Cov.Exhaustive = true
 	c.Cov.Extra["stores"] = replayed
-	c.Cov.Rule = "every store of <= MaxOps operations (published or unpublished) over competing valid updates/recovers per commitment, duplicate creates and a deactivate, at coordinates with non-monotone transaction numbers (second configuration: <= 4 published operations over chains in which the earlier of two competitors commits back to an already consumed commitment); for each store every permutation of the store's return order is replayed through the real processor; verdict: all orders give the same view and operation lists, equal to the specification's earliest-wins result; in addition every split of the set into operations served by the stores and operations supplied through the AdditionalOperations resolution option (published ones optionally left in the store as well) must give the same result; and three consecutive resolutions over a store that hands out its internal slice (the second one with an additional operation) must leave the store as it was. Non-trivial: >= 2 candidates for one commitment, >= 2 creates, or published+unpublished mixed."
+	c.Cov.Rule = "every store of <= MaxOps operations (published or unpublished) over competing valid updates/recovers per commitment, duplicate creates and a deactivate, at coordinates with non-monotone transaction numbers (second configuration: <= 4 published operations over chains in which the earlier of two competitors commits back to an already consumed commitment); for each store every permutation of the store's return order is replayed through the real processor; verdict: all orders give the same view and operation lists, equal to the specification's earliest-wins result; in addition every split of the set into operations served by the stores and operations supplied through the AdditionalOperations resolution option (published ones optionally left in the store as well) must give the same result; and three consecutive resolutions over a store that hands out its internal slice (the second one with an additional operation) must leave the store as it was; and an unparsable create request anchored before every operation of the store must change nothing. Non-trivial: >= 2 candidates for one commitment, >= 2 creates, or published+unpublished mixed."
 	c.Assume = append(c.Assume, "the store order is modelled by the order of the slices handed to the processor by the published and unpublished stores")
 	c.Finish("model_checking")
 }
@@ -97,6 +97,23 @@ func c02Config(c *ev.Ctx, cfg string, replayedP, ordersP, ntP *int64) {
 					}
 				}
 				if bad {
+					break
+				}
+			}
+		}
+		// "the earliest anchored create of a DID is the one that defines it" - the earliest VALID one: a create request that
+		// cannot even be parsed (anchored before everything else, stored under the DID's suffix) is no operation of the
+		// alphabet and contributes nothing; the scan has to go on to the next create
+		if !bad && i%3 == 0 && len(cs.Ops) > 0 {
+			for _, junk := range []string{`{"type":"create","suffixData":"garbage"}`, `not json`, `{"type":"create"}`} {
+				badCreate := &operation.AnchoredOperation{Type: operation.TypeCreate, UniqueSuffix: e.Suffix, OperationRequest: []byte(junk),
+					TransactionTime: uint64(concr.BaseTime), TransactionNumber: 0, CanonicalReference: "ref-unparsable-create"}
+				got, _, _ := e.ResolveWithExtra(cs.Ops, []*operation.AnchoredOperation{badCreate})
+				atomic.AddInt64(&orders, 1)
+				if !got.Equal(cs.Res) {
+					c.Violation(classify("unparsable-earlier-create-changes-result", e, cs.Ops, cs.Res, got), map[string]interface{}{"store": e.Describe(cs.Ops),
+						"additional_create_request": junk, "anchored_at": "before every operation of the store", "observed": got, "expected": cs.Res})
+					bad = true
 					break
 				}
 			}
